@@ -11,7 +11,7 @@ B = os.path.join(V, 'seeded', 'benign')
 names = [a for a in sys.argv[1:] if not a.startswith('--')] or sorted(f[:-5] for f in os.listdir(B) if f.endswith('.diff'))
 claimed = sorted(json.load(open(os.path.join(V, 'props.json'))).keys())
 env = dict(os.environ, CARGO_NET_OFFLINE='true', VERIF_EVIDENCE_DIR='/var/tmp/mt-evidence-benign')
-respath = os.path.join(B, 'RESULTS.json')
+respath = next((a.split('=', 1)[1] for a in sys.argv[1:] if a.startswith('--out=')), os.path.join(B, 'RESULTS.json'))
 results = json.load(open(respath)) if os.path.exists(respath) else {}
 
 
